@@ -502,6 +502,11 @@ CHECKS["C12"]["text"] += (" The confinement family also draws provider pairs of 
                           "boundary_races and declined_races (a move across the boundary / to a declined path racing a peer change of the "
                           "same object) are judged by the guards on engine actions.")
 
+CHECKS["C04"]["text"] += " Further seeded family: create_then_rename_folder (a new file in a synchronised folder, the folder renamed before the file is synchronised, the other side busy in its own folder)."
+CHECKS["C05"]["text"] += " A further deterministic family uses providers whose content hashes are of different types (identical content must still merge without a resolver call)."
+CHECKS["C18"]["text"] += (" Deterministic restart schedules of the notification service (stop without finality while idle / while a handler runs, "
+                          "then start again, notifications raised before, while stopped and after) are checked against the delivery law.")
+
 ALL = ["C%02d" % i for i in range(1, 21)]
 
 
